@@ -45,3 +45,7 @@ Definition csFirst : bytes := bos "first".
 Definition csAll : bytes := bos "all".
 Definition csRandom : bytes := bos "random".
 Definition csOne : bytes := bos "one".
+
+(** templates of the library's output statements (util.go:63, word_gen.go:119) *)
+Definition tpl_entropy_simple : bytes := bos "entropySimple: There must be a positive number of elements. Not ".
+Definition tpl_duplicates : bytes := bos " duplicate words found when setting up word list generator".
